@@ -71,6 +71,11 @@ def gen_cases(ctx):
             count = r.below(capacity + 1); w = r.below(count + 1); v = r.below(2 ** 63)
             for f in (0, 1, 2):
                 out.append('genrst - 0 0 rst %d %d %d %d %d %d %d' % (f, cap0, cnt0, capacity, count, w, v))
+    # generated HashSet / TreeSet ::pvExtraCheck against the real private member: functor throwing or not, consistent or not (honest answer false)
+    for kind in 'ht':
+        for f in (0, 1):
+            for mode in (0, 1):
+                out.append('genxc - 0 0 %s %d %d' % (kind, f, mode))
     return out
 
 
@@ -347,6 +352,9 @@ def run(ctx):
         ctx.tie_obligations.append({'name': 'generated Gallina (Array::Data::Reset / pvReset with internal capacity 4; creator overwrites the union word and throws / allocation throws) == real '
                                             'Data::Reset: completed flag, mItems, count, reported capacity, live blocks, on %d cases' % nrst,
                                     'ok': not [m for m in mism if m[1].startswith('genrst')]})
+        nxc = len([c for c in cases if c.startswith('genxc')])
+        ctx.tie_obligations.append({'name': 'generated Gallina (HashSet / TreeSet ::pvExtraCheck; functor throwing or not, container consistent or not) == the real private member, on %d cases' % nxc,
+                                    'ok': not [m for m in mism if m[1].startswith('genxc')]})
         for (i, c, a, b) in mism[:3]:
             ctx.violation('model and implementation traces disagree', {'kind': 'micro', 'case': c, 'impl': a, 'model': b,
                           'cmd': 'echo "%s" | build/C04/micro' % c}, found_input=True)
